@@ -329,7 +329,7 @@ class Gen:
                 k = r.choice(KEYS)
                 return [f'{v}.{k} = {self.expr("int")};'] if r.random() < 0.5 else [f'{v}["{k}"] = {self.expr("str")};']
             return [f"print({self.expr('obj')});"]
-        if c < 0.97:
+        if c < 0.968:
             # closures created in a loop capture that iteration's bindings and are called after the loop
             fs, g, k, v = self.fresh("fs"), self.fresh("g"), self.fresh("k"), self.fresh("e")
             self.declare(fs, "flist")
@@ -338,7 +338,7 @@ class Gen:
                      f"    fn {g}() {{", f"        return {v} * 100 + {k} + {body_local};", "    }", f"    {fs} += [{g}];", "}",
                      f"for [_, {g}c] in {fs} {{", f"    print({g}c());", "}"]
             return lines
-        if c < 0.985:
+        if c < 0.982:
             # aliasing: a second name for the same container, an update through one, both observed
             kind = r.choice(["ilist", "obj"])
             vs = [v for v in self.vars_of(kind) if v.startswith("v")]
@@ -352,10 +352,67 @@ class Gen:
                 else:
                     upd = r.choice([f'{al}.zz = {self.int_lit()};', f'{src}["yy"] = {self.int_lit()};'])
                 return [f"{al} := {src};", upd, f"print({src});", f"print({al});", f"print({src} === {al});"]
+        if 0.982 <= c < 0.993 or (c < 0.982 and r.random() < 0.5):
+            return self.methods()
         # destructuring
         a, b, rest = self.fresh(), self.fresh(), self.fresh()
         self.declare(a, "int"); self.declare(b, "int"); self.declare(rest, "ilist")
         return [f"[{a}, {b}, ..{rest}] := [{self.int_lit()}, {self.int_lit()}, {self.int_lit()}, {self.int_lit()}];"]
+
+    def methods(self):
+        """objects with methods that use `this`; the same function value reached through different objects, variables,
+        list elements, arguments and re-assignments (what `this` is bound to follows the access path of the value)"""
+        r = self.r
+        oa, ob = self.fresh("m"), self.fresh("m")
+        self.declare(oa, "mobj"); self.declare(ob, "mobj")
+        na, nb = r.randrange(1, 50), r.randrange(50, 99)
+        lines = [f'{oa} := {{"n": {na}, "get": fn() {{ return this.n; }}, "inc": fn(d) {{ this.n += d; return this.n; }}}};',
+                 f'{ob} := {{"n": {nb}, "get": {oa}.get, "inc": {oa}["inc"]}};']
+        holders, lists = [], []
+        ap = self.fresh("ap")
+        self.declare(ap, "mfunc")
+        lines += [f"fn {ap}(f) {{", "    return f();", "}"]
+
+        def mref():
+            k = r.random()
+            o = r.choice([oa, ob])
+            if k < 0.3:
+                return f"{o}.get"
+            if k < 0.5:
+                return f'{o}["get"]'
+            if k < 0.7 and holders:
+                return r.choice(holders)
+            if k < 0.85 and lists:
+                return f"{r.choice(lists)}[{r.randrange(0, 2)}]"
+            return f"{o}.get"
+        for _ in range(r.randrange(4, 9)):
+            k = r.random()
+            if k < 0.2:
+                h = self.fresh("h")
+                self.declare(h, "mfunc")
+                lines.append(f"{h} := {mref()};")
+                holders.append(h)
+            elif k < 0.4 and holders:
+                lines.append(f"{r.choice(holders)} = {mref()};")
+            elif k < 0.6:
+                lines.append(f"print({mref()}());")
+            elif k < 0.68:
+                x = self.fresh("ml")
+                self.declare(x, "mlist")
+                lines.append(f"{x} := [{mref()}, {mref()}];")
+                lists.append(x)
+            elif k < 0.76:
+                lines.append(f"print({ap}({mref()}));")
+            elif k < 0.84:
+                lines.append(f"print({r.choice([oa, ob])}.inc({r.randrange(1, 5)}));")
+            elif k < 0.9 and lists:
+                lines.append(f"{r.choice(lists)}[{r.randrange(0, 2)}] = {mref()};")
+            elif k < 0.95:
+                lines.append(f'{r.choice([oa, ob])}.get = {mref()};')
+            else:
+                lines.append(f"{{\"get\": {self.fresh('h')}}} := {r.choice([oa, ob])};")
+        lines.append(f"print({oa}.n + {ob}.n);")
+        return lines
 
     FAILS = [
         "print(undefined_name);", "print(1 + \"a\");", "print([1, 2][5]);", "print({\"a\": 1}.zz);",
